@@ -255,8 +255,9 @@ struct Ledger : Monitor {
 		if (is_raw(d.data)) return;
 		bool loop_dst = d.dst.fam == AF_INET && d.dst.a[0] == 127;
 		if (t == w->srv && !loop_dst && from_loopback.count(fnv1a(d.data.data(), d.data.size()))) {
-			// verbatim relay of a local DNS reply: content is not iodine's; still must match a query
-			consume(d, nullptr);
+			// verbatim relay of a local DNS reply (-b forwarding): neither content nor multiplicity is iodined's - a local
+			// server that answers twice, or with an id nobody asked, is relayed per C20's rules; not judged under C14
+			consume(d, nullptr, false, true);
 			return;
 		}
 		DnsMsg m;
@@ -305,7 +306,7 @@ struct Ledger : Monitor {
 		for (auto &q : it->second) if (q.id == id) { any = true; if (q.strict && q.plain_labels) plainq = true; }
 		return !any || plainq;
 	}
-	void consume(const Dgram &d, const DnsMsg *m, bool quiet_echo = false)
+	void consume(const Dgram &d, const DnsMsg *m, bool quiet_echo = false, bool relay = false)
 	{
 		uint16_t id = (d.data.size() >= 2) ? (uint16_t)((d.data[0] << 8) | d.data[1]) : 0;
 		auto &v = pend[d.dst.str()];
@@ -314,6 +315,7 @@ struct Ledger : Monitor {
 			if (found < 0) found = (int)i;
 			if (m && !m->qd.empty() && v[i].strict && v[i].name == m->qd[0].name.dotted() && v[i].type == m->qd[0].type) { found_exact = (int)i; break; }
 		}
+		if (found < 0 && relay) { w->probes["c14.relay_without_pending_query"]++; return; }
 		if (found < 0) {
 			char b[200]; snprintf(b, sizeof b, "answer id=%u to %s matches no unanswered query from that address", id, d.dst.str().c_str());
 			w->S.violate("C14", "unsolicited", b);
